@@ -1,44 +1,61 @@
 """Shared helpers for the per-property drivers."""
 from __future__ import annotations
 
+import os
 from typing import Callable, Optional
 
 from ..core.model import AnalysisError, Program, mutated_source
-import os
-
 from ..core.report import VERIF, CheckContext
+
+REF = os.path.join(VERIF, "fixtures", "reference")
+
+
+def _ref_base(ctx: CheckContext, analyse: Callable):
+    """violations of the unmodified reference tree (the known findings), computed once per run"""
+    cache = getattr(ctx, "_ref_base", None)
+    if cache is None:
+        base = CheckContext(ctx.prop, ctx.tier)
+        try:
+            analyse(base, Program(REF))
+        except AnalysisError as e:
+            ctx.error(f"reference tree cannot be analysed: {e}")
+        cache = {(o.rule, o.key) for o in base.obligations if not o.ok}
+        ctx._ref_base = cache
+    return cache
+
+
+def _outcome(analyse: Callable, root: str, ov: dict, base_bad: set, prop: str, tier: str, expect_rule: str):
+    sub = CheckContext(prop, tier)
+    try:
+        analyse(sub, Program(root, overrides=ov))
+        new_bad = [o for o in sub.obligations if not o.ok and (o.rule, o.key) not in base_bad and o.rule.startswith(expect_rule)]
+        return ("fires" if new_bad else "silent"), "; ".join(f"{o.rule} {o.key}" for o in new_bad[:3])
+    except AnalysisError as e:
+        return "analysis-error", str(e)
 
 
 def run_control(ctx: CheckContext, name: str, analyse: Callable, root: str, relpath: str, old: str, new: str,
                 expect_rule: str, count: int = 1, expect_fire: bool = True):
-    """Built-in control: the CURRENT tree with one instance broken in memory (or, for
-    expect_fire=False, a behaviour-neutral rewrite).  The rule must (not) report a new violation
-    compared with the unmodified tree.  When the anchor text is absent from the current tree the
-    control is skipped and recorded as such."""
-    ov = mutated_source(root, relpath, old, new, count)
-    where = "current tree"
-    base_bad = {(o.rule, o.key) for o in ctx.obligations if not o.ok}
+    """Built-in control: one instance broken (or, for expect_fire=False, rewritten behaviour-neutrally) in memory.
+
+    The control is ENFORCED on the frozen reference tree (fixtures/reference: the repaired pinned tree), where its anchor text
+    always exists - so a rule whose expected count on /repo is zero still has a positive example on every run, and an edit of
+    /repo can never make a control meaningless.  In the thorough tier it is additionally tried on the current tree and the
+    outcome recorded (not enforced: after a legitimate refactoring the textual mutation may no longer express the defect)."""
+    want = "fires" if expect_fire else "silent"
+    ov = mutated_source(REF, relpath, old, new, count) if os.path.isdir(REF) else None
     if ov is None:
-        # the anchor text has drifted: exercise the rule on the frozen reference tree instead, so the control never vanishes
-        ref = os.path.join(VERIF, "fixtures", "reference")
-        ov = mutated_source(ref, relpath, old, new, count) if os.path.isdir(ref) else None
-        if ov is None:
-            ctx.control(name, "fires" if expect_fire else "silent", "skipped", skipped=True, note="anchor text present neither in the current nor in the reference tree")
-            return
-        root, where = ref, "reference tree (anchor text not present in current tree)"
-        base = CheckContext(ctx.prop, ctx.tier)
-        try:
-            analyse(base, Program(ref))
-        except AnalysisError:
-            pass
-        base_bad = {(o.rule, o.key) for o in base.obligations if not o.ok}
-    sub = CheckContext(ctx.prop, ctx.tier)
-    try:
-        analyse(sub, Program(root, overrides=ov))
-        new_bad = [o for o in sub.obligations if not o.ok and (o.rule, o.key) not in base_bad and o.rule.startswith(expect_rule)]
-        got = "fires" if new_bad else "silent"
-        note = "; ".join(f"{o.rule} {o.key}" for o in new_bad[:3])
-    except AnalysisError as e:
-        got = "analysis-error"
-        note = str(e)
-    ctx.control(name, "fires" if expect_fire else "silent", got, note=(note + " | " if note else "") + "on " + where)
+        ctx.control(name, want, "skipped", skipped=True, note="anchor text not present in the reference tree")
+        ctx.error(f"control '{name}': anchor text missing from the reference tree")
+        return
+    got, note = _outcome(analyse, REF, ov, _ref_base(ctx, analyse), ctx.prop, ctx.tier, expect_rule)
+    live = ""
+    if ctx.tier == "thorough":
+        ov2 = mutated_source(root, relpath, old, new, count)
+        if ov2 is None:
+            live = " | current tree: anchor text absent"
+        else:
+            base_bad = {(o.rule, o.key) for o in ctx.obligations if not o.ok}
+            g2, _ = _outcome(analyse, root, ov2, base_bad, ctx.prop, ctx.tier, expect_rule)
+            live = f" | current tree: {g2}"
+    ctx.control(name, want, got, note=(note + " | " if note else "") + "on reference tree" + live)
